@@ -855,13 +855,18 @@ func clientDoH(s *task, n *simnet.Net, items []*item) {
 	}
 	defer h2.CloseIdleConnections()
 	defer h1.CloseIdleConnections()
+	h3, h3done := h3Transport(n, clientIP(6), "dns.sim.test")
+	defer h3done()
 
 	for _, it := range items {
 		s.pause()
 		var rt http.RoundTripper = h2
 		ver := "h2"
-		if t.Chance(1, 3) {
+		switch t.Choose(4) {
+		case 0:
 			rt, ver = h1, "h1"
+		case 1:
+			rt, ver = h3, "h3"
 		}
 
 		method := []string{"POST", "GET", "JSON"}[t.Choose(3)]
@@ -887,12 +892,24 @@ func clientDoH(s *task, n *simnet.Net, items []*item) {
 		}
 		req.Header.Set("Accept", "application/dns-message")
 
-		ctx, cancel := context.WithTimeout(context.Background(), 8*time.Second)
+		tmo := 8 * time.Second
+		if ver == "h3" {
+			tmo = 100 * time.Second
+		}
+		dropsBefore := n.Drops
+		ctx, cancel := context.WithTimeout(context.Background(), tmo)
 		hr, err := rt.RoundTrip(req.WithContext(ctx))
 		if err != nil {
 			cancel()
 			s.Logf("doh %s %s item %s id=%d: transport error %v", ver, method, it.kind, it.id, err)
 			e := expect(it)
+			if ver == "h3" && (n.Faults.DropDen > 0 || n.Drops != dropsBefore) {
+				// Datagrams were lost: QUIC loss recovery may take longer
+				// than the client waits.  Not judged.
+				s.Probe("doh3-timeout-under-packet-loss")
+
+				continue
+			}
 			if e.outcome != "none" {
 				s.Failf("C01/doh-no-response", "doh: exchange failed for a message that must be answered",
 					"%s %s item %s id=%d: %v", ver, method, it.kind, it.id, err)
@@ -979,6 +996,7 @@ func clientDoH(s *task, n *simnet.Net, items []*item) {
 			return
 		}
 		s.Probe("doh-answered")
+		s.Probe("doh-" + ver + "-answered")
 	}
 }
 
